@@ -449,6 +449,32 @@ Section Inv.
     - cbn [emit ctr]. apply evar_ok. lia.
   Qed.
 
+  (* SETITEMS on an object: a run of item assignments to the fresh variable *)
+  Lemma pairs_eok : forall c n l, List.length l <= n -> Forall (eok c) l ->
+    Forall (fun kv => eok c (fst kv) /\ eok c (snd kv)) (pairs_of l).
+  Proof.
+    induction n as [|n IH]; intros l L F.
+    - destruct l; [constructor | cbn in L; lia].
+    - destruct F as [|a l Ha F]; [constructor|]. destruct F as [|b l Hb F]; [constructor|].
+      cbn [pairs_of]. constructor; [split; assumption|].
+      destruct n; [cbn in L; lia|]. apply (IH l); [cbn in L; lia | exact F].
+  Qed.
+
+  Lemma inv_fold_setitems : forall j kvs s,
+    inv s -> lo <= j < ctr s ->
+    Forall (fun kv => eok (ctr s) (fst kv) /\ eok (ctr s) (snd kv)) kvs ->
+    inv (fold_left (fun st kv => emit (SSetItemV j (fst kv) (snd kv)) st) kvs s) /\
+    ctr (fold_left (fun st kv => emit (SSetItemV j (fst kv) (snd kv)) st) kvs s) = ctr s.
+  Proof.
+    intros j kvs. induction kvs as [|kv r IH]; intros s I L F; cbn [fold_left]; [auto|].
+    inversion F as [|x y [Hk Hv] F']; subst.
+    destruct (IH (emit (SSetItemV j (fst kv) (snd kv)) s)) as [A B].
+    - apply inv_emit; [exact I|]. cbn [body_wf]. repeat split; try lia; try assumption. apply (i_body _ I).
+    - cbn [emit ctr]. exact L.
+    - cbn [emit ctr]. exact F'.
+    - split; [exact A | rewrite B; reflexivity].
+  Qed.
+
   Lemma step_inv : forall o s s1,
     inv s -> op_globals_free o = true ->
     (forall x, o = OConst (CStr x) -> pc x = true) ->
@@ -505,16 +531,15 @@ Section Inv.
     - (* OSetItems *) dpops H. dpopv H.
       assert (Fb : forall s1', (let '(name, s3) := new_variable e f0 in
                   Ok (push (EVar name)
-                        (emit (SExpr (ECall (EAttr (EVar name) "update") [EDictLit (pairs_of l)] None)) s3)))
+                        (fold_left (fun st kv => emit (SSetItemV name (fst kv) (snd kv)) st) (pairs_of l) s3)))
                   = Ok s1' -> inv s1').
-      { intros s1' H'.
-        eapply (fresh_stmt_inv f0 e
-                  (fun n => SExpr (ECall (EAttr (EVar n) "update") [EDictLit (pairs_of l)] None)));
-          [exact J0|exact E0| |exact H'].
-        intros j Lj b Wb Ej. cbn [body_wf]. split; [|assumption].
-        apply call_ok; [apply evar_ok; lia|]. constructor; [|constructor].
-        intros a Ia. cbn [expr_atoms] in Ia. nz.
-        eapply atom_ok_mono; [|apply (pairs_ok _ l E a Ia)]. lia. }
+      { intros s1' H'. destruct (new_variable e f0) as [v s3] eqn:N. inversion H'; subst.
+        destruct (inv_new_variable _ _ _ _ N J0 E0) as (I3 & Ev & Ec). pose proof (i_lo _ J0). subst v.
+        destruct (inv_fold_setitems (ctr f0) (pairs_of l) s3 I3) as [If Cf].
+        - rewrite Ec. lia.
+        - rewrite Ec. apply (pairs_eok _ (List.length l) l (le_n _)).
+          eapply Forall_impl; [|exact E]. intros a Ha. eapply eok_mono; [|exact Ha]. lia.
+        - apply inv_push; [exact If|]. rewrite Cf, Ec. apply evar_ok. lia. }
       destruct e; try (apply Fb; exact H).
       destruct (get_node i f0) as [[l0|l0|kvs]|] eqn:Gn; try (apply Fb; exact H).
       inversion H; subst. apply inv_push; [|apply enode_ok]. apply inv_set_node; [assumption|].
@@ -707,12 +732,20 @@ Ltac dm H := repeat match type of H with
    | context [match ?x with _ => _ end] => destruct x; try discriminate H
    end.
 
+Lemma stopped_fold_setitems name (kvs : list (expr * expr)) : forall s,
+  stopped (fold_left (fun st kv => emit (SSetItemV name (fst kv) (snd kv)) st) kvs s) = stopped s.
+Proof. induction kvs as [|kv r IH]; intros s; cbn [fold_left]; [reflexivity|]. rewrite IH. reflexivity. Qed.
+
 Lemma step_stopped : forall o s s1, step o s = Ok s1 -> o <> OStop -> stopped s1 = stopped s.
 Proof.
   intros o s s1 H NS. destruct o; try congruence; cbn [step] in H;
     repeat (first [dv H | ds H | dt H]);
-    unfold bind_call, new_variable, alloc, emit_import, emit, push, set_node, with_stack in H;
-    dm H; inversion H; subst; cbn [stopped]; congruence.
+    first
+    [ match type of H with context [fold_left] => idtac end;
+      unfold new_variable, push, set_node, with_stack in H; cbn iota in H;
+      dm H; inversion H; subst; cbn [stopped]; rewrite ?stopped_fold_setitems; cbn [stopped]; congruence
+    | unfold bind_call, new_variable, alloc, emit_import, emit, push, set_node, with_stack in H;
+      dm H; inversion H; subst; cbn [stopped]; congruence ].
 Qed.
 
 Lemma step_stop_body : forall s s1, step OStop s = Ok s1 ->
